@@ -12,7 +12,8 @@ CLAIMS = {
             "(is_square facts, inferred invariant b2 = a^2 - n, guard equalities). The modulus in the certificate must be the "
             "modulus of the very key whose test_info is written, and the attaching path must mark that key weak (entry.result = True in the Check body, and SetTestResult turns a positive entry into test_info.weak on every path, "
             "including the path that merges into an existing entry). "
-            "Divisibility and weak-marking are decided for all inputs and constructor parameters; properness only for the gcd-based sites.",
+            "Divisibility and weak-marking are decided for all inputs and constructor parameters; properness for the four gcd-based helpers and for CheckGCD "
+            "(a proper divisor is among the recorded values unless an exhaustive search over the single moduli found none; exposed the defect repaired by fix 92289d6).",
             "Trusted: gmpy2 gcd/isqrt/is_square semantics, Python integer semantics, ast parser, the engine. "
             "Not decided: properness of Fermat-style pairs (depends on runtime max_steps vs. primality).",
             "DESIGN.md section 3 C01"),
@@ -56,7 +57,7 @@ CLAIMS = {
             "append counts of range loops), shifts and masks, and compared with n = c*q + r: proves result < 2^n for every n >= 1. A byte mask only "
             "counts when it is on the most-significant byte for the byte order of the following from_bytes - this is what exposes the TruncLcgRand defect "
             "(known finding, pinned by rng_test.testTruncLcg). Purity: entropy sources are reachable only under `seed is None`/falsy seed, random.getrandbits "
-            "is dominated by random.seed(seed), no instance state is written; Java/truncated-LCG constants and update shape; registry.",
+            "is dominated by random.seed(seed), no instance state is written; Java/truncated-LCG constants (the twelve published L'Ecuyer / Steele-Vigna multipliers are pinned in the checker) and update shape, multiplier selection; registry.",
             "Trusted: from_bytes/to_bytes/slice semantics, sizes returned by os.urandom/digest/Generator.bytes, getrandbits(n) < 2^n. "
             "Not decided: that the emulations reproduce the original bit streams beyond constants and update shape.",
             "DESIGN.md section 3 C20"),
@@ -72,6 +73,8 @@ CLAIMS = {
             "a module-level memo is accepted only when its key contains every input of the stored value. R-C12-LADDER: LargeBinaryMatrixRank tests every matrix 64*2^i with size^2 <= n "
             "(loop condition in canonical form), agrees with its data-size guard, and hands the size x size prefix to the rank computation. "
             "R-C12-TEMPLATE: a template is aperiodic iff no border of length 1..m-1 (equal-length prefix/suffix, every length), the default set is all aperiodic m-bit words, explicit overlapping templates are rejected. "
+            "R-C12-UNIVERSAL: Maurer's last-occurrence table starts at first position - 1, each test block adds log2(position - T[b]) before T[b] is updated, p = erfc(|sum/K - expected| / sigma / sqrt 2); "
+            "the excursion sub-tests are reported only under J >= c with c >= 500; R-C12-FORMULA compares every statistic at its sink (the appended / returned p-value with all intermediate values inlined), so it is independent of local names. "
             "R-C12-CONSIST is semantic: the class index of each histogram test equals clamp(T, 0, K) on a grid straddling both breakpoints, len(v) = K + 1, table of the same row/parameters, ladder visited in descending min_n.",
             "Not decided: the floating-point *values* of the p-values, the [0,1] range and the invariance clauses (runtime values).",
             "DESIGN.md section 3 C12"),
@@ -119,9 +122,10 @@ CLAIMS = {
             "exhaustive filter for k < 3. DivmodRounded: a = x*b + y by the divmod axiom and |y| <= b/2 for every residue of b modulo 2 (exposed the defect repaired by fix 16e0547). The three small-root finders release a root only under "
             "the divisibility test on f(root) of the same root. ContinuedFraction is the Euclid recurrence and appends (q, r, t) after the update. "
             "R-C19-BIAS: lattice_suite.Bias is UniformSumCdf(#terms, 2*T/n) with T the sum over sample x transforms of min(r, n - r), r = (a*s + b) % n, and the count handed to the "
-            "Irwin-Hall CDF equals the number of additions into T (closed form of the accumulation: product of the trip counts of the enclosing loops). "
+            "Irwin-Hall CDF equals the number of additions into T (closed form of the accumulation: product of the trip counts of the enclosing loops). R-C19-PSEUDOAVG: PseudoAverage tries every prefix shift, its variance-change "
+            "expression satisfies n * diff = m(2n sx + j n^2) - 2 S j n - (j n)^2 as a polynomial identity, keeps the strict minimum from (0, 0) and returns the rounded mean mod n. "
             "R-C19-PURE: no helper of ntheory_util, linalg_util, small_roots, lattice_suite, randomness_tests.util writes state that outlives the call (a memo is accepted only when keyed by every input of the stored value).",
-            "Not decided (runtime values): the rational solver (echelon_form's row moves), completeness of the small-root finders, Sieve, PseudoAverage, UniformSumCdf, CombinedPValue numerics; product trees are under C03.",
+            "Not decided (runtime values): the rational solver (echelon_form's row moves), completeness of the small-root finders, Sieve, UniformSumCdf, CombinedPValue numerics; product trees are under C03.",
             "DESIGN.md section 3 C19"),
     "C06": ("other", "predicate-region equivalence of extracted path conditions (integer comparisons + opaque boolean atoms), constant folding of tables, for-all loop shape analysis, string-grammar writer/reader agreement",
             "For CheckSizes, CheckExponents, CheckWeakCurve, CheckValidECKey, EcCurve.IsValidPublicKey, OnCurve, CheckROCA, CheckROCAVariant, both ROCA detectors and "
@@ -138,7 +142,8 @@ CLAIMS = {
             "is combined over the same count, `undecided` counts exactly the UNDECIDED names, finished <=> undecided == 0 and runs >= min_repetitions, InsufficientDataError "
             "finishes without a state; TestSource repeats with fresh bits while some test is unfinished and both entry points return any(Failed) over the complete registry "
             "(NIST + extended + lattice, every public test function registered); CombinedPValue has the four-case Fisher shape. One structural necessary condition of the "
-            "second sentence: the large-matrix-rank test examines every power-of-two matrix that fits, including the exactly fitting one the documentation names as the detector (R-C13-RANK, shared with C12).",
+            "second sentence: the large-matrix-rank test examines every power-of-two matrix that fits, including the exactly fitting one the documentation names as the detector (R-C13-RANK, shared with C12), "
+            "and one of the first: random-excursion p-values are only reported above 500 cycles, where their approximations hold (R-C13-GATE).",
             "Not decided: that good generators pass and the documented weak ones fail (statistics on runtime values).",
             "DESIGN.md section 3 C13"),
     "C14": ("other", "refinement typing of the pure-Python Berlekamp-Massey loop in an alignment domain (ghost polynomials, symbolic path walk); piecewise power-of-two exponent extraction + small linear-arithmetic prover; region equivalence of the domain guards; writer/reader agreement across the Python/C++ boundary (regex/brace scan)",
